@@ -8,6 +8,7 @@ package app
 import (
 	"bytes"
 	"compress/gzip"
+	"encoding/json"
 	"fmt"
 	"io"
 	"os"
@@ -387,6 +388,44 @@ func c15Asset(t *testing.T, rep *vh.Report, work, src, name string, quick bool) 
 					add("other-json", []byte(doc))
 				}
 			}
+			// the real record with a damaged segment table: no entries at all, an entry in the middle missing (the
+			// table is not contiguous), an entry that ends before it starts, two entries swapped
+			if plain, err := vGunzipOrPlain(f, data); err == nil {
+				var rec map[string]any
+				if json.Unmarshal(plain, &rec) == nil {
+					if segs, ok := rec["segments"].([]any); ok && len(segs) >= 3 {
+						edit := func(kind string, ns []any) {
+							cp := map[string]any{}
+							for k, v := range rec {
+								cp[k] = v
+							}
+							cp["segments"] = ns
+							b, _ := json.Marshal(cp)
+							if strings.HasSuffix(f, ".gz") {
+								var zb bytes.Buffer
+								zw := gzip.NewWriter(&zb)
+								_, _ = zw.Write(b)
+								_ = zw.Close()
+								b = zb.Bytes()
+							}
+							add("edited-table:"+kind, b)
+						}
+						edit("empty", []any{})
+						edit("hole", append(append([]any{}, segs[:1]...), segs[2:]...))
+						swapped := append([]any{}, segs...)
+						swapped[0], swapped[1] = swapped[1], swapped[0]
+						edit("swapped", swapped)
+						if e0, ok := segs[1].(map[string]any); ok {
+							bad := map[string]any{}
+							for k, v := range e0 {
+								bad[k] = v
+							}
+							bad["startTime"], bad["endTime"] = e0["endTime"], e0["startTime"]
+							edit("end-before-start", append(append(append([]any{}, segs[:1]...), bad), segs[2:]...))
+						}
+					}
+				}
+			}
 			for vi, va := range variants {
 				restore()
 				_ = os.WriteFile(f, va.b, 0o644)
@@ -438,4 +477,12 @@ func c15Asset(t *testing.T, rep *vh.Report, work, src, name string, quick bool) 
 		}
 	}
 	rep.Sample(map[string]any{"asset": name, "requests": len(reqs)})
+}
+
+// vGunzipOrPlain returns the JSON text of a metadata file (gunzipped where the file is a .gz).
+func vGunzipOrPlain(name string, data []byte) ([]byte, error) {
+	if strings.HasSuffix(name, ".gz") {
+		return vGunzip(data)
+	}
+	return data, nil
 }
